@@ -424,18 +424,23 @@ def run_case(case):
             # exactly-zero amplitudes: the forward pass itself is rough there (adaptive Krylov stops early for a tiny coupling: known finding
             # C07/C01), so small-step differences measure that roughness. If the derivative at a 10x coarser scale agrees with autograd, the
             # disagreement is attributed to that mechanism and reported under its own key.
+            attributed = False
             with torch.no_grad():
-                try:
-                    lo2 = {m: (float(ex.loss(theta0 + m * 10 * h * v)), float(ex.loss(theta0 - m * 10 * h * v))) for m in (1, 2, 4)}
-                    c2 = {m: (lo2[m][0] - lo2[m][1]) / (2 * m * 10 * h) for m in (1, 2, 4)}
+                for coarse in (10, 100, 300):  # the roughness scale varies (seen: 1e-3 and 3e-2 rad/us)
+                    try:
+                        lo2 = {m: (float(ex.loss(theta0 + m * coarse * h * v)), float(ex.loss(theta0 - m * coarse * h * v))) for m in (1, 2, 4)}
+                    except Exception:
+                        break
+                    c2 = {m: (lo2[m][0] - lo2[m][1]) / (2 * m * coarse * h) for m in (1, 2, 4)}
                     fdc, fdc2 = (4 * c2[1] - c2[2]) / 3, (4 * c2[2] - c2[4]) / 3
                     cnt["runs"] += 6
                     if abs(ad - fdc) <= 2e-5 * max(abs(fdc), abs(ad)) + 4 * abs(fdc - fdc2) + 2e-8:
                         viol.append({"key": "C30:finite-difference-rough-at-exactly-zero-amplitude:krylov-early-stop",
-                                     "msg": f"{fp}: direction {name}: autograd {ad:.9g}, finite difference {fd:.9g} at h=1e-3 but {fdc:.9g} at h=1e-2", "detail": {"case": case}})
-                        continue
-                except Exception:
-                    pass
+                                     "msg": f"{fp}: direction {name}: autograd {ad:.9g}, finite difference {fd:.9g} at h=1e-3 but {fdc:.9g} at h={coarse * h:.0e}", "detail": {"case": case}})
+                        attributed = True
+                        break
+            if attributed:
+                continue
         if abs(ad - fd) > tol and ex.kind == "wf" and not _pulser_samples_differentiable(ex, theta0, v):
             # pulser-core's own sampler returned samples whose autograd Jacobian differs from their finite-difference Jacobian (seen: the last
             # sample of a pulse loses its gradient when the pulse phase requires grad): upstream of the emulators, counted and not judged
